@@ -7,6 +7,7 @@
 package c13
 
 import (
+	"context"
 	"database/sql"
 	"encoding/json"
 	"fmt"
@@ -216,6 +217,96 @@ func (g *gen) stmtOf(kind string) sqlref.RefStmt {
 	panic("kind " + kind)
 }
 
+// failing returns a write that (normally) fails when it runs: constraint
+// violations of every kind the schema has, a table that does not exist (the
+// text fails to prepare only when the driver reaches it), a runtime error.
+func (g *gen) failing() string {
+	r := g.r
+	switch r.IntN(8) {
+	case 0, 1:
+		return "INSERT INTO t(u,n,c) VALUES " + g.row(3) // UNIQUE
+	case 2:
+		return "INSERT INTO t(u,n,c) VALUES " + g.row(1) // NOT NULL
+	case 3:
+		return "INSERT INTO t(u,n,c) VALUES " + g.row(2) // CHECK
+	case 4:
+		return fmt.Sprintf("INSERT INTO k(pid,v) VALUES(%d,'fk')", 90+r.IntN(9)) // FOREIGN KEY
+	case 5:
+		return fmt.Sprintf("INSERT INTO p(id,name) VALUES(%d,'dup')", 1+r.IntN(4)) // PRIMARY KEY
+	case 6:
+		return g.stmtOf("unknown").SQL
+	}
+	return g.stmtOf("rterr").SQL
+}
+
+// multiSQL returns ONE statement entry whose text holds 2-4 SQL statements
+// separated by semicolons (the HTTP API accepts such an array element, and
+// /db/load sends a whole dump as one entry). All parts are writes, so both
+// request paths run the entry through the driver's Exec, which executes the
+// parts one after the other and stops at the first that fails. Half of the
+// entries get a part that fails at a position >= 1, i.e. after earlier parts
+// of the same entry have already run.
+func (g *gen) multiSQL() sqlref.RefStmt {
+	r := g.r
+	n := 2 + r.IntN(3)
+	failAt := -1
+	saved := g.clean
+	switch r.IntN(4) {
+	case 0:
+		g.clean = false
+	case 1:
+		g.clean = true
+	default:
+		g.clean = true
+		failAt = 1 + r.IntN(n-1)
+	}
+	var parts []string
+	for i := 0; i < n; i++ {
+		if i == failAt {
+			parts = append(parts, g.failing())
+		} else {
+			parts = append(parts, g.write().SQL)
+		}
+	}
+	g.clean = saved
+	return sqlref.RefStmt{SQL: strings.Join(parts, g.pick(";", "; ", ";\n")) + g.pick("", ";")}
+}
+
+// multiSQLRequest fills req (flags already drawn) with 1-4 entries of which at
+// least one is a multi-statement text; half of the requests consist of exactly
+// one such entry, some are padded with empty entries.
+func (g *gen) multiSQLRequest(req sqlref.RefReq) sqlref.RefReq {
+	r := g.r
+	n := 1
+	if r.IntN(2) == 0 {
+		n = 2 + r.IntN(3)
+	}
+	at := r.IntN(n)
+	for i := 0; i < n; i++ {
+		switch {
+		case i == at || r.IntN(3) == 0:
+			req.Stmts = append(req.Stmts, g.multiSQL())
+		case r.IntN(6) == 0:
+			req.Stmts = append(req.Stmts, sqlref.RefStmt{})
+		default:
+			req.Stmts = append(req.Stmts, g.stmtOf(g.kind(false)))
+		}
+	}
+	return req
+}
+
+// sqlParts is the number of SQL statements in the text of one entry. Generated
+// literals never contain a semicolon.
+func sqlParts(sql string) int {
+	n := 0
+	for _, p := range strings.Split(sql, ";") {
+		if strings.TrimSpace(p) != "" {
+			n++
+		}
+	}
+	return n
+}
+
 // request generates the next request. inTx is the model's view of whether an
 // explicit transaction was left open by earlier requests; it is then resolved
 // first, by a one-statement COMMIT or ROLLBACK request.
@@ -225,6 +316,9 @@ func (g *gen) request(inTx bool) sqlref.RefReq {
 		return sqlref.RefReq{Unified: r.IntN(2) == 0, Stmts: []sqlref.RefStmt{{SQL: g.pick("COMMIT", "ROLLBACK")}}}
 	}
 	req := sqlref.RefReq{Unified: r.IntN(2) == 0, Tx: r.IntN(2) == 0, RollbackOnError: r.IntN(3) == 0}
+	if r.IntN(6) == 0 {
+		return g.multiSQLRequest(req)
+	}
 	if !req.Unified && !req.Tx && r.IntN(8) == 0 {
 		// SQL-dump style: the whole text is one statement with its own
 		// BEGIN…COMMIT (what /db/load sends, with RollbackOnError).
@@ -475,8 +569,105 @@ func runRq(t *twin, req *sqlref.RefReq) (*outcome, error) {
 	return o, nil
 }
 
-func runRef(ref *sqlref.RefConn, reader *sql.DB, req *sqlref.RefReq, v sqlref.RefVariant) (*outcome, []sqlref.RefRes, error) {
-	rs, err := ref.Run(req, v, nil)
+// connDigest renders the whole database as the given connection sees it right
+// now (inside its open transaction, if any).
+func connDigest(conn *sql.Conn) (string, error) {
+	ctx := context.Background()
+	rows, err := conn.QueryContext(ctx, `SELECT name, coalesce(sql,'') FROM sqlite_master ORDER BY name`)
+	if err != nil {
+		return "", err
+	}
+	var b strings.Builder
+	var tables []string
+	for rows.Next() {
+		var name, def string
+		if err := rows.Scan(&name, &def); err != nil {
+			rows.Close()
+			return "", err
+		}
+		fmt.Fprintf(&b, "S %s %s\n", name, def)
+		if strings.HasPrefix(def, "CREATE TABLE") {
+			tables = append(tables, name)
+		}
+	}
+	rows.Close()
+	if err := rows.Err(); err != nil {
+		return "", err
+	}
+	for _, t := range tables {
+		r, err := conn.QueryContext(ctx, `SELECT * FROM "`+t+`" ORDER BY rowid`)
+		if err != nil {
+			return "", err
+		}
+		cols, _ := r.Columns()
+		for r.Next() {
+			vals := make([]any, len(cols))
+			ptrs := make([]any, len(cols))
+			for i := range vals {
+				ptrs[i] = &vals[i]
+			}
+			if err := r.Scan(ptrs...); err != nil {
+				r.Close()
+				return "", err
+			}
+			fmt.Fprintf(&b, "R %s %v\n", t, vals)
+		}
+		r.Close()
+		if err := r.Err(); err != nil {
+			return "", err
+		}
+	}
+	return b.String(), nil
+}
+
+// partialObs measures, on the reference connection, which multi-statement
+// entries of a request failed AFTER earlier statements of the same entry had
+// changed the database: the state the connection sees right after the failure
+// (before any ROLLBACK of the executor) differs from the state before the
+// entry. SQLite undoes the failing statement itself, so a difference is the
+// work of the entry's earlier statements. Measurement only; not an oracle.
+type partialObs struct {
+	before  string
+	failed  int // multi-statement entries that failed
+	partial int // ... of which after earlier statements of the entry changed the database
+	err     error
+}
+
+func (p *partialObs) hooks(ref *sqlref.RefConn, req *sqlref.RefReq) *sqlref.RefHooks {
+	multi := false
+	for _, s := range req.Stmts {
+		if sqlParts(s.SQL) >= 2 {
+			multi = true
+		}
+	}
+	if !multi {
+		return nil
+	}
+	return &sqlref.RefHooks{
+		Before: func(i int) {
+			if sqlParts(req.Stmts[i].SQL) >= 2 {
+				p.before, p.err = connDigest(ref.Conn)
+			}
+		},
+		After: func(i int, res *sqlref.RefRes) {
+			if sqlParts(req.Stmts[i].SQL) < 2 || res.Err == "" || p.err != nil {
+				return
+			}
+			p.failed++
+			after, err := connDigest(ref.Conn)
+			if err != nil {
+				p.err = err
+				return
+			}
+			if after != p.before {
+				p.partial++
+			}
+		},
+	}
+}
+
+func runRef(ref *sqlref.RefConn, reader *sql.DB, req *sqlref.RefReq, v sqlref.RefVariant, h *sqlref.RefHooks) (*outcome, []sqlref.RefRes, error) {
+	rs, err := ref.Run(req, v, h)
 	o := &outcome{CallErr: err != nil}
 	o.Results, o.ErrText = canonRef(rs)
 	o.InTx = ref.InTx()
@@ -594,7 +785,7 @@ func classify(history []sqlref.RefReq, req *sqlref.RefReq, got *outcome, aspect 
 			return generic()
 		}
 	}
-	o, _, err := runRef(ref, rd, req, v)
+	o, _, err := runRef(ref, rd, req, v, nil)
 	if err != nil || !sameOutcome(o, got) {
 		return generic()
 	}
@@ -659,7 +850,11 @@ func runSegment(c *vf.Ctx, ep, base, n int, next func(i int, inTx bool) (sqlref.
 				return 0
 			}
 		}
-		want, refRes, err := runRef(t.ref, t.refReader, &req, sqlref.RefVariant{})
+		var po partialObs
+		want, refRes, err := runRef(t.ref, t.refReader, &req, sqlref.RefVariant{}, po.hooks(t.ref, &req))
+		if err == nil && po.err != nil {
+			err = fmt.Errorf("reference digest: %w", po.err)
+		}
 		if err != nil {
 			c.Inconclusive(err.Error())
 			return 0
@@ -682,9 +877,25 @@ func runSegment(c *vf.Ctx, ep, base, n int, next func(i int, inTx bool) (sqlref.
 		evaluated++
 		c.Count("requests:"+pathName(&req), 1)
 		nonEmpty, failed, wrote := 0, false, false
+		multiEntries := 0
 		for _, s := range req.Stmts {
 			if s.SQL != "" {
 				nonEmpty++
+			}
+			if sqlParts(s.SQL) >= 2 {
+				multiEntries++
+			}
+		}
+		if multiEntries > 0 {
+			c.Count("multisql_entries", int64(multiEntries))
+			c.Count("multisql_requests:"+pathName(&req), 1)
+			c.Count("multisql_entries_failed_ref", int64(po.failed))
+			c.Count("multisql_entries_failed_after_partial_write_ref", int64(po.partial))
+			if req.Tx && po.partial > 0 {
+				c.Count("tx_multisql_failed_after_partial_write_ref", 1)
+				if nonEmpty == 1 {
+					c.Count("tx_single_entry_multisql_failed_after_partial_write_ref", 1)
+				}
 			}
 		}
 		for _, r := range refRes {
@@ -716,13 +927,17 @@ func runSegment(c *vf.Ctx, ep, base, n int, next func(i int, inTx bool) (sqlref.
 		if want.InTx {
 			c.Count("explicit_tx_left_open_ref", 1)
 		}
-		if nonEmpty >= 2 && failed && wrote {
+		if (nonEmpty >= 2 && failed && wrote) || po.partial > 0 {
 			b, _ := json.Marshal(req)
 			c.Nontrivial(string(b))
 		}
 		if sameOutcome(want, got) {
 			c.Held(1)
-			if failed && wrote && nonEmpty >= 3 {
+			newClass := req.Tx && po.partial > 0 && c.Counter("samples_multisql") < 2
+			if newClass {
+				c.Count("samples_multisql", 1)
+			}
+			if (failed && wrote && nonEmpty >= 3) || newClass {
 				c.Sample(map[string]any{"request": req, "results": got.Results, "dump_hash": got.DumpH})
 			}
 			history = append(history, req)
@@ -795,7 +1010,7 @@ func replay(c *vf.Ctx) {
 }
 
 func run(c *vf.Ctx) {
-	c.Rule("episodes on a fresh twin (rqlite db.DB on a scratch WAL file, fk on | plain SQLite reference executor), each a seeded sequence of requests of 1-8 statements drawn from: valid INSERT/UPDATE/DELETE, multi-row statements failing on row k (UNIQUE, NOT NULL, CHECK), FK violations, OR REPLACE/IGNORE, syntax errors, unknown tables/columns, runtime errors, RETURNING (with and without force-query), parameterised inserts, SELECTs, DDL, empty strings, explicit BEGIN/COMMIT/ROLLBACK/SAVEPOINT texts and SQL-dump style one-statement texts; flags Transaction x RollbackOnError x {Execute, Request}. After every request: result list, logical dump and open-transaction state compared. non-trivial = request with >=2 non-empty statements where (per the reference) at least one statement fails and at least one changes rows; distinct by request JSON")
+	c.Rule("episodes on a fresh twin (rqlite db.DB on a scratch WAL file, fk on | plain SQLite reference executor), each a seeded sequence of requests of 1-8 statements drawn from: valid INSERT/UPDATE/DELETE, multi-row statements failing on row k (UNIQUE, NOT NULL, CHECK), FK violations, OR REPLACE/IGNORE, syntax errors, unknown tables/columns, runtime errors, RETURNING (with and without force-query), parameterised inserts, SELECTs, DDL, empty strings, explicit BEGIN/COMMIT/ROLLBACK/SAVEPOINT texts and SQL-dump style one-statement texts; about one request in six carries multi-statement entries (ONE entry whose text holds 2-4 semicolon-separated writes, half of them with a part at position >=1 that fails: UNIQUE/NOT NULL/CHECK/FK/PK, unknown table, runtime error), as the only entry of the request (half), padded with empty entries, or mixed with ordinary entries; flags Transaction x RollbackOnError x {Execute, Request} for every shape. After every request: result list, logical dump and open-transaction state compared. non-trivial = request with >=2 non-empty entries where (per the reference) at least one fails and at least one changes rows, or a request with a multi-statement entry that fails after earlier statements of that same entry changed the database (measured on the reference connection: state right after the failure != state before the entry); distinct by request JSON")
 	c.Assume("the reference executor (internal/sqlref/refexec.go: Tx = BEGIN, stop at first failure and ROLLBACK, else COMMIT; no Tx = statement by statement, RollbackOnError issues ROLLBACK and stops) is what the property means")
 	c.Assume("SQLite and the go-sqlite3 driver are trusted on both sides (statement atomicity, last_insert_rowid, changes); error texts are not compared, only error presence; text/blob typing of returned values is not compared (C30)")
 	c.Assume("db.DB level only: no Store/HTTP sample; no timeouts / context cancellation")
@@ -832,4 +1047,11 @@ func run(c *vf.Ctx) {
 	wg.Wait()
 	c.Extra("episodes", eps)
 	c.Require(int64(total/2), total/40)
+	// The multi-statement-entry class must really have been exercised where it
+	// matters: transactional requests whose only non-empty entry failed after
+	// part of it had run (a normal quick run sees several dozen).
+	if k := c.Counter("tx_single_entry_multisql_failed_after_partial_write_ref"); k < int64(total/800) {
+		c.Inconclusive(fmt.Sprintf("only %d transactional single-entry multi-statement requests failed after a partial write (want >= %d)", k, total/800))
+		c.Require(int64(total)*2, 0) // observed too little: exit 3 instead of passing
+	}
 }
